@@ -158,6 +158,44 @@ def shared_writes(repo: Repo, res: CheckResult) -> None:
                 res.add(Finding("C12", "RACE.multi-step-update", m.rel, f"{ci.name}.{mname}", ", ".join(sorted(cache_attrs)),
                                 "one method updates several shared caches: another thread can observe the first update "
                                 "without the second", fn.lineno))
+    # publish-then-mutate: an object stored into shared state outside the constructors must be complete at that moment
+    for ci in repo.all_classes():
+        if _lifetime(repo, ci) is None:
+            continue
+        m = ci.module
+        for mname, fn in ci.methods.items():
+            if mname in INIT_METHODS:
+                continue
+            pubs = []
+            for a in walk_no_nested(fn, include_root=False):
+                if isinstance(a, ast.Assign):
+                    attrs = [t for t in a.targets if isinstance(t, ast.Attribute) and norm(t.value) in ("self", "cls")]
+                    if attrs:
+                        aliases = {t.id for t in a.targets if isinstance(t, ast.Name)}
+                        if isinstance(a.value, ast.Name):
+                            aliases.add(a.value.id)
+                        pubs.append((a, norm(attrs[0]), aliases))
+            for a, attr_txt, aliases in pubs:
+                n += 1
+                res.evaluated(f"publish:{ci.name}.{mname}:{attr_txt}", True)
+                for later in walk_no_nested(fn, include_root=False):
+                    if getattr(later, "lineno", 0) <= a.lineno:
+                        continue
+                    st = None
+                    if isinstance(later, (ast.Assign, ast.AugAssign)):
+                        tg = later.targets[0] if isinstance(later, ast.Assign) else later.target
+                        if isinstance(tg, ast.Subscript):
+                            st = norm(tg.value)
+                    elif isinstance(later, ast.Call) and isinstance(later.func, ast.Attribute) and later.func.attr in MUTATORS:
+                        st = norm(later.func.value)
+                    elif isinstance(later, ast.Delete) and isinstance(later.targets[0], ast.Subscript):
+                        st = norm(later.targets[0].value)
+                    if st is not None and (st in aliases or st == attr_txt) and not _under_lock(m, later):
+                        res.add(Finding("C12", "RACE.publish-then-mutate", m.rel, f"{ci.name}.{mname}", f"{norm(a)[:60]} ... {norm(later)[:60]}",
+                                        f"`{attr_txt}` is published first and filled afterwards (`{norm(later)[:80]}`): a thread that "
+                                        "reads it between the two steps works with a half-made table (and may cache what it "
+                                        "derived from it)", later.lineno))
+                        break
     res.count("RACE.shared-writes", n, 4)
     # the read side of the call cache tolerates a miss
     mm = repo.mod("retort/builtin_mediator")
